@@ -51,6 +51,23 @@ Proof. intros ->. exact stale_replay_when_not_cleared. Qed.
 Theorem C15_refuted_last_preterminal : loop_saves false true = false.
 Proof. exact last_preterminal_not_saved. Qed.
 
+(* NOT PROVED here (outside the OMEN model; exercised by the oracle of
+   harness/props/C15.py on the real session only):
+
+   C15_then_rest_partial -- full statement: after the remainder of the level the
+   resumed session continues with the queue restored from the probability of
+   the pop that followed the level, i.e. emits every pre-terminal of the
+   uninterrupted run after the level, repeating only pre-terminals whose
+   probability equals the saved one (this is C08's restore theorem applied to
+   the saved max_probability; Next.v / RestoreProofs.v are its model).
+
+   C15_tied_level_repeats_partial -- full statement: if the pop that follows the
+   level has exactly the level's probability, the level's own pre-terminal is
+   in that tied group and is generated once more in full after its remainder,
+   and this is the only repetition of its strings.  The oracle classifies such
+   cuts ("cuts_tied" in the evidence) and checks that the level is regenerated
+   ONLY then. *)
+
 Print Assumptions C15_continuation.
 Print Assumptions C15_state_roundtrip.
 Print Assumptions C15_refuted_stale.
